@@ -13,8 +13,15 @@ func VerifHarness_C13_ParseMethodMap() {
 		verifAssert("accepted-map-has-target", target != "")
 		verifAssert("target-is-a-field-name-not-a-path", !VerifModelContains(target, "."))
 	}
+	// a function announced with "|" is kept or the line is rejected - it is never dropped
+	hasPipe := VerifModelContains(s, "|")
+	if err == nil && hasPipe {
+		verifAssert("announced-function-is-kept", custom != "")
+	}
+	if err == nil && !hasPipe {
+		verifAssert("no-function-without-pipe", custom == "")
+	}
 	_ = source
-	_ = custom
 }
 
 // every inheritable / converter / method setting line of up to 7 bytes after a known key is parsed
